@@ -161,15 +161,16 @@ def size0_finding(ctx):
     obs = L.size0_probe(py4hw)
     ctx.notes['size0_probe'] = obs
     ctx.count(('resp-size0',))
+    L.MIN_K = 0 if obs['outcome'] == 'ok' else 1
     known = [f for f in ctx.known if f['id'] == F1 and f.get('status') == 'known']
     if obs['outcome'] == 'ok':
-        ctx.notes['size0_probe']['note'] = 'size = 0 now yields "=!": finding %s no longer reproduces' % F1
+        ctx.notes['size0_probe']['note'] = 'size = 0 yields "=!": finding %s does not reproduce; the sweeps include size 0' % F1
         return
     if known:
         ctx.known_finding(F1, 'CMDResponse with size=0 does not answer "=!": %s (block=CMDResponse, predicate size==0)' % obs['detail'])
-    else:
-        ctx.violation({'what': 'CMDResponse with size = 0 does not produce "=!"', 'block': 'CMDResponse', 'vin': 5, 'size': 0,
-                       'observed': obs['detail'], 'expected': '=!'})
+    else:       # no (or only a "fixed") entry: a concrete failing input, reported by run()
+        return {'what': 'CMDResponse with size = 0 does not produce "=!"', 'block': 'CMDResponse', 'vin': 5, 'size': 0,
+                'start_resp': '1 for one cycle', 'ready': 1, 'observed': obs['detail'], 'expected': '=!'}
 
 
 def run(ctx):
@@ -197,11 +198,12 @@ def run(ctx):
         except RuntimeError as ex:
             have_model = False
             tie = {'what': 'the Coq model of C20 no longer builds', 'coq_error': str(ex)[-1500:]}
-    found = None
+    found = size0_finding(ctx)
     qruns = req_collect(ctx, 36 if q else 600, have_model)
-    rruns = [] if isinstance(qruns, tuple) else resp_collect(ctx, 30 if q else 480, have_model)
+    rruns = [] if (isinstance(qruns, tuple) or found) else resp_collect(ctx, 30 if q else 480, have_model)
     for x in (qruns, rruns):
         if isinstance(x, tuple) and found is None: found = x[1]
+    if isinstance(qruns, tuple): qruns = []
     ctx.log('real-block sweeps: %s' % ('impl != spec' if found else 'impl = python copy of the spec'))
     if found is None and have_model:
         try:
@@ -214,7 +216,6 @@ def run(ctx):
         ctx.log('Coq comparison (Model/Cmd.v, Spec/C20.v, kernel model): %s' % ('ok' if not res else res[0]))
         if res and res[0] == 'spec': found = res[1]
         elif res and tie is None: tie = res[1]
-    size0_finding(ctx)
     broken = (not r['ok']) or missing or tie is not None
     if found is None and (broken or not q):
         res = structured_search(ctx, 400 if q else 5000)
